@@ -45,6 +45,7 @@ class FuncInfo:
     parent: Optional["FuncInfo"] = None
     nested: Dict[str, "FuncInfo"] = field(default_factory=dict)
     decorators: List[str] = field(default_factory=list)
+    _body_nodes: Optional[list] = None
 
     @property
     def params(self) -> List[ast.arg]:
